@@ -450,6 +450,26 @@ def strip_sample(s):
 
 # ------------------------------------------------------------------------------------------------ replay
 def replay(path):
+    if path.endswith(".spec"):  # a corpus file: corpus/<engine>/<name>.spec with config: and props: lines
+        props, config = [], ""
+        with open(path) as f:
+            for line in f:
+                if line.startswith("props:"):
+                    props = line[6:].split()
+                elif line.startswith("config:"):
+                    config = line[7:].strip()
+        engine = os.path.basename(os.path.dirname(os.path.abspath(path)))
+        rc = 0
+        for pr in props or ["C17"]:
+            flav = "tsan" if engine == "concurrent" else "asan"
+            v = dict(prop=pr, tier="quick", engine=engine, flavour=flav, config=config, case=0, seed=1, kind="(corpus)",
+                     gen=dict(spec_file=os.path.relpath(os.path.abspath(path), VERIF)))
+            tmp = os.path.join(RUNDIR, f"replay.{os.getpid()}.{pr}.json")
+            os.makedirs(RUNDIR, exist_ok=True)
+            with open(tmp, "w") as f:
+                json.dump(v, f)
+            rc = max(rc, replay(tmp))
+        return rc
     with open(path) as f:
         v = json.load(f)
     prop, tier = v.get("prop", "C00"), v.get("tier", "quick")
